@@ -139,7 +139,14 @@ def rebuilt_after_writes(label, attrs, recv="self", name=None):
         tag = name or ('coherence.' + label)
         evs = [e for e in P.st.log if e.label == label or e.label.split('.')[-1] == label]
         if not evs:
-            return [(tag, z3.BoolVal(False))]
+            # no rebuild on this path: coherent iff nothing the derived state depends on was changed since entry (the invariant held on entry)
+            me = P.value("self")
+            from pyvc.values import sortkey
+            conj = []
+            for a in sorted(attrs):
+                fid = '%s:%s' % (a, sortkey(P.eng.attr_spec(P.frame, me, a)))
+                conj.append(P.eng.field(P.st, fid)[me.ref] == P.eng.field(P.entry, fid)[me.ref])
+            return [(tag, z3.And(*conj) if conj else z3.BoolVal(False))]
         ev = evs[-1]
         if ev.loop:
             return [(tag, z3.BoolVal(False))]
